@@ -327,12 +327,29 @@ Definition sent_password (sc : scase) : option bytes :=
   | _ => None
   end.
 
+(* the database and user THIS connection named in its startup packet (last assignment wins, missing = "") *)
+Definition sent_ident (sc : scase) : option (bytes * bytes) :=
+  match untyped (sc_limit sc) (sc_raw sc) with
+  | Some (body, _) =>
+      match p_u32 body with
+      | Some (_, after) =>
+          match read_params (S (List.length after)) after with
+          | Some ps => Some (param_get (bs "database") ps, param_get (bs "user") ps)
+          | None => None
+          end
+      | None => None
+      end
+  | None => None
+  end.
+
 Definition oracle_C01 (sc : scase) (log : list ev) : bool :=
   no_crash log &&
-  (* the validator only ever sees the password that was sent in a well-formed password message *)
+  (* the validator only ever sees the password that was sent in a well-formed password message,
+     together with the database and user of this connection's own startup packet *)
   forallb (fun e => match e with
-                    | CbValidate _ _ given =>
-                        match sent_password sc with Some pw => bytes_eqb pw given | None => false end
+                    | CbValidate db user given =>
+                        match sent_password sc with Some pw => bytes_eqb pw given | None => false end &&
+                        match sent_ident sc with Some (d, u) => bytes_eqb d db && bytes_eqb u user | None => false end
                     | _ => true end) log &&
   match sc_auth sc with
   | None => true
